@@ -98,14 +98,24 @@ PROPS = {
                       "point feasibility follow the property's definitions, that feasible_points lists exactly the feasible recorded points in order "
                       "(recursive counting function with induction lemmas), that the least-infeasible selection returns a recorded point of minimal "
                       "violation measure with its recorded outputs, and that `optimum` reports a feasible recorded point, its recorded objective, "
-                      "constraint values and gradients, and no feasible recorded point has a smaller objective; flagged feasible iff some recorded point is.",
+                      "constraint values and gradients, and no feasible recorded point has a smaller objective; flagged feasible iff some recorded point is. "
+                      "The whole statement (feasible and least-infeasible case) is also proved for `optimum` with a typed result (variant `summary`), for "
+                      "`OptimizationProblem.optimum` and for `OptimizationResult.from_optimization_problem` (also run as MultiObjectiveOptimizationResult): x_opt / "
+                      "f_opt / is_feasible / constraint values / gradients are those recorded for the selected point, the objective sign is restored exactly for a "
+                      "maximisation problem reporting its original objective, optimum_index is the position of x_opt in the database (Database.get_iteration / "
+                      "get_x_vect verified; no KeyError), the empty history gives the n_obj_call = 0 result; `last_point` reports the last recorded point with what is "
+                      "recorded for it; `compute_pareto_optimal_points` (rank-2 numpy model, both loops): no reported sample is infeasible or dominated by a feasible one.",
         "level_note": "Trusted: pyvc, numpy model, z3, reals for floats with finite recorded objective values of size 1 (NaN/inf and vector objectives excluded by "
-                      "precondition); the violation measure of check_design_point_is_feasible is an assumed contract. One known finding (feasible points without "
-                      "objective value), see known_findings.json. Not covered: OptimizationResult.from_optimization_problem, Pareto front, last_point.",
+                      "precondition - also for the multi-objective result class, whose contract therefore only covers the delegation `pareto_front` iff feasible); the "
+                      "violation measure of check_design_point_is_feasible is an assumed contract; DesignSpace.convert_array_to_dict and "
+                      "ParetoFront.from_optimization_problem (pandas) are assumed deterministic functions; dataclass construction, itertools.islice/next and "
+                      "numpy.any(axis=1) are modelled in pyvc/plug_c04r.py. The Pareto contract states the soundness direction only (what C04 says): the code also "
+                      "drops non-dominated samples that tie with another feasible sample (observation reported, not a C04 violation).",
         "design_ref": "DESIGN.md §4 C04",
         "runtime": "contracts.rt_c04",
         "modules": ["contracts.c04_optimum", "contracts.c04_result"],
-        "not_covered": ["OptimizationResult.from_optimization_problem", "pareto/utils.py", "multiobjective_optimization_result.py", "last_point", "NaN / infinite recorded values"],
+        "not_covered": ["ParetoFront.__get_optima / from_optimization_problem (history assembly, pandas)", "completeness of the Pareto filter (non-dominated samples that are dropped)",
+                        "vector-valued objectives (norm-based selection in `optimum`)", "get_data_by_names(filter_non_feasible=True) (dataset code)", "NaN / infinite recorded values"],
     },
     "C16": {
         "level_text": "Proof, for all dimensions, points, steps and component subsets, that forward finite differences build the perturbation "
@@ -146,17 +156,48 @@ PROPS = {
                         "parallel centered differences", "float cancellation error"],
     },
     "C02": {
-        "level_text": "Proof (all histories by invariant preservation, all sizes/values symbolically) that remove_variable, rename_variable, set_lower/upper_bound, "
-                      "set_current_variable and their helpers preserve the representation invariant of DesignSpace (one variable order for variables, normalisation "
-                      "policies and index ranges; adjacent index ranges summing to the dimension; cached normalisation data dropped), and that normalize_vect / "
-                      "unnormalize_vect / round_vect compute the affine maps component-wise for every vector; bijection, unit-interval and gradient-scaling "
-                      "identities as real-arithmetic lemmas over those postconditions.",
-        "level_note": "Trusted: pyvc with its ordered-dict model, numpy model (npmodel.py), z3, reals for floats; pydantic's Variable is a modelled record. "
-                      "Not covered: add_variable/filter/filter_dimensions/extend/set_current_value, get_current_value, conversions dict<->array, check_membership, "
-                      "project_into_bounds, complex dtype, file I/O; integer rounding inside unnormalize_vect (precondition: no integer variable).",
+        "level_text": "Proof (all histories by invariant preservation, all sizes/values symbolically) that remove_variable, rename_variable, add_variable, filter_dimensions, "
+                      "set_lower/upper_bound, the integer-normalisation setter, set_current_variable and their helpers preserve the representation invariant of DesignSpace "
+                      "(one variable order for variables, normalisation policies and index ranges; adjacent index ranges summing to the dimension; cached normalisation data "
+                      "dropped), and that normalize_vect / unnormalize_vect / round_vect compute the affine maps component-wise for every vector; bijection, unit-interval "
+                      "and gradient-scaling identities as real-arithmetic lemmas over those postconditions. "
+                      "LINK LEVEL (contracts/c02_more.py; variables with precise bound vectors, precise policies): __update_normalization_vars establishes, from the "
+                      "representation invariant alone, the validity of the cached normalisation data (wfnum: the precondition of the numerical contracts here and in "
+                      "C14 / C16) AND their link to the per-variable view: component start(name)+j of the cached lower/upper bound arrays is component j of the bound of "
+                      "`name`, the integer mask tells the variable types, norm_factor = ub - lb, inverse = 1/(ub-lb) (1 where ub = lb), the normalised indices are exactly "
+                      "(pairwise distinct, increasing) the components whose policy is True; _add_norm_policy sets policy[j] = (float variable or integer normalisation) "
+                      "and lb[j] != -inf and ub[j] != inf; convert_dict_to_array (every variable) = concatenation in the variable order at the index ranges (KeyError iff a "
+                      "variable has no value); get_lower_bounds / get_upper_bounds (cache hit or not) = the concatenated per-variable bounds; normalize_vect and "
+                      "project_into_bounds from ANY well-formed state (they refresh the cache themselves; projection: inside unchanged, outside onto the bound, result within "
+                      "the bounds); check_membership(array) raises ValueError iff some component is outside the CURRENT per-variable bounds (+- tolerance) whatever the "
+                      "history; __check_membership(dict) checks EVERY variable (None skipped): ValueError iff wrong size / out of bounds / non-integer value of an integer "
+                      "variable; filter_dimensions filters bounds AND policy (one policy entry per component afterwards); unnormalize_vect WITH integer variables (points: "
+                      "affine map then numpy.round on integer components; gradients, minus_lb=False: pure scaling, no rounding) and normalize_grad / unnormalize_grad as the "
+                      "matching linear scalings with or without integer variables; transform_vect / untransform_vect = normalize_vect / unnormalize_vect for points; induction lemmas: offsets of the concatenation = index-range starts, index ranges "
+                      "within [0, dimension), every component has an owner variable, increasing => pairwise increasing.",
+        "level_note": "Trusted: pyvc with its ordered-dict model, numpy model (npmodel.py + pyvc/plug_c02.py: sequences of vectors built by comprehensions, concatenate of a "
+                      "sequence of vectors at the prefix sums of the lengths (plug_c14's hstack model, its two consequences re-used), nonzero triggers, Variable(...) with "
+                      "precise bounds), z3, reals for floats (an infinite bound is a tagged real: order comparisons with infinite bounds are not faithful, clauses about "
+                      "projection are stated for finite bounds); pydantic's Variable is a modelled record (validation = an uninterpreted predicate; bounds of `size` "
+                      "components); bound arrays are real vectors (an int64 bound array is its real image). ASSUMED contracts: _check_value, _check_current_value, "
+                      "get_current_value (frame only), __get_common_dtype of the current values (float or integer dtype: complex not covered), __is_integer of a scalar (a "
+                      "deterministic predicate), and - restated for the link-level schema, verified under the structural one - set_current_variable / "
+                      "__update_current_metadata. Cited induction lemmas are proved as lemma contracts over uninterpreted index-range functions and instantiated at the "
+                      "design space's ranges (hypotheses of each citation are proved obligations). KNOWN FINDING: unnormalize_vect casts the whole result to int64 when the "
+                      "common dtype of the current values is an integer dtype although some variable is a float variable (known_findings.json). "
+                      "Not covered: filter, extend, set_current_value, get_current_value values, convert_array_to_dict / split_array_to_dict_of_arrays, conversions and bounds "
+                      "for a SUBSET of names, get_indexed_variable_names, get_variables_indexes, check, __eq__, initialize_missing_current_values, to_scalar_variables, "
+                      "`out=` arguments, batches (C14), sparse inputs, complex dtype, file I/O; preservation of the link-level "
+                      "invariants (policy = policy of the variable) by the mutators other than filter_dimensions / _add_norm_policy is proved only at the structural level.",
         "design_ref": "DESIGN.md §4 C02",
-        "not_covered": ["add_variable", "filter", "filter_dimensions", "extend", "set_current_value", "get_current_value", "convert_array_to_dict/convert_dict_to_array",
-                        "check_membership", "project_into_bounds", "unnormalize_vect with integer variables"],
+        "assumptions": ["pydantic Variable: construction / assignment raises ValueError or yields size >= 1 and bounds of `size` components (modelled record)",
+                        "current values are real or integer arrays (no complex dtype); __is_integer(x) is a deterministic predicate of the scalar x",
+                        "numpy.concatenate of a sequence of vectors places the blocks at the prefix sums of their lengths (offset function + monotonicity / block-of-position, "
+                        "proved by induction under C14 HstackLemmas); numpy.round uninterpreted with ground axioms (integer-valued)",
+                        "floats are reals; +-inf bounds are tags on reals (comparisons `!= inf` exact, order comparisons with an infinite bound not faithful)",
+                        "link-level restatements of set_current_variable / __update_current_metadata / get_current_value (verified or assumed at the structural level)"],
+        "not_covered": ["filter", "extend", "set_current_value", "get_current_value (values)", "convert_array_to_dict", "conversions / bounds for a subset of variable names",
+                        "get_indexed_variable_names / get_variables_indexes", "check / __eq__", "out= arguments, sparse, complex"],
         "modules": ["contracts.c02_design_space", "contracts.c02_normalization", "contracts.c02_more"],
     },
     "C01": {
@@ -262,11 +303,21 @@ PROPS = {
                       "(colliding) function of the content, relative to the specification of the four abstract storage methods; (3) MemoryFullCache's "
                       "storage methods satisfy that specification (behavioural subtyping) - except the freshness clause, see known defects; (4) "
                       "BaseDiscipline.execute with the default SimpleCache runs the body iff the lookup returned no outputs, returns the inputs merged "
-                      "with the cached outputs on a hit and stores (pristine prepared inputs, produced outputs) on a miss.",
+                      "with the cached outputs on a hit and stores (pristine prepared inputs, produced outputs) on a miss; (5) HDF5Cache is a behavioural subtype "
+                      "of the same storage specification (contracts/c05_more.py): _initialize_entry (inherited), _has_group, _read_data, _write_data satisfy the four "
+                      "storage contracts over the model field `_store` kept COUPLED with the abstract cache file of HDF5FileSingleton (coupling invariant: same groups, "
+                      "same names, every stored array is what its dataset decodes to, entries named by positive integers carrying the hash of their inputs), so every "
+                      "BaseFullCache theorem holds for HDF5Cache; HDF5Cache.clear empties file and table; HDF5FileSingleton.read_hashes / HDF5Cache._read_hashes "
+                      "rebuild, from a file a previous session left, a hash table satisfying the representation invariant over the SAME abstract entries (a reopened "
+                      "cache serves the same entries); HDF5FileSingleton.has_group / clear; (6) get_all_entries / __iter__ of BaseFullCache, HDF5Cache and SimpleCache "
+                      "enumerate the entries 1..len(cache) in index order with their stored inputs, outputs and Jacobian. The call-site preconditions the storage "
+                      "specification needs for a file-based store (index unused / group absent / inputs written first / index >= 1 / inputs present) are proved at every "
+                      "call site of BaseFullCache, with the new invariant clause `nothing is stored beyond max_index`.",
         "level_note": "Trusted: pyvc VC generator and its dict/list/set models, z3/cvc5, arrays as opaque contents in a symbolic heap (allocation only, no "
                       "in-place modification inside the verified functions), compare_dict_of_arrays / hash_data / flatten-nest of Jacobians assumed, "
                       "ghost code in __ensure_input_data_exists (ghost variables only), DictProxy stores pickled copies, IO/grammar/_run environment of "
-                      "execute assumed. Not covered: HDF5Cache, linearize protocol, locking, execute with a full cache (data converters).",
+                      "execute assumed; HDF5Cache: abstract h5py/scipy model of the cache file (C11 assumptions), model code maintaining the model field `_store` "
+                      "(pyvc/plug_c05more.py), open/close protocol of the file handle assumed. Not covered: locking, execute with a full cache (data converters).",
         "design_ref": "DESIGN.md §4 C05",
         "modules": ["contracts.c05_caches", "contracts.c05_full_cache", "contracts.c05_discipline", "contracts.c11_hdf5_cache_file", "contracts.c05_more"],
         "runtime": "contracts.rt_c05",
@@ -276,17 +327,24 @@ PROPS = {
             "hash_data is an arbitrary (possibly colliding) deterministic function of the content of the input data",
             "Jacobian data are dicts of arrays keyed by (output, input) pairs; flatten_nested_bilevel_dict / nest_flat_bilevel_dict are inverse key renamings sharing the arrays "
             "(rectangular Jacobians, separator not occurring in names)",
-            "the abstract storage methods of BaseFullCache (_initialize_entry/_has_group/_read_data/_write_data) are specifications over a model field; verified for MemoryFullCache only",
+            "the abstract storage methods of BaseFullCache (_initialize_entry/_has_group/_read_data/_write_data) are specifications over a model field; verified for MemoryFullCache and HDF5Cache",
+            "HDF5Cache: the model field `_store` is updated by model code next to the file writes (fresh arrays holding the written contents); one HDF5Cache object per node of a file "
+            "(another object or process writing the same node breaks the coupling invariant); data handed to the cache are numeric or str arrays and numeric dense or sparse Jacobians "
+            "(no bytes array, no sparse str array); at the cache level the content of a sparse array IS the matrix it denotes (a CSC/COO Jacobian is read back as the CSR array of the same "
+            "matrix); h5 paths and str(int) are injective; int(array([h], dtype='bytes')[0]) == h; exists(path) false implies no node; `del file[node]` removes the node with its entries",
+            "HDF5FileSingleton.__open / keep_open / __close (the file-handle protocol) are not verified: `with self.__open()` gives access to the persistent content; inside keep_open a "
+            "file operation leaves the handle open (assumed clause `file-handle` of HDF5Cache._read_data), which is what exposes the AssertionError of get_all_entries on an empty cache",
+            "BaseFullCache._all_groups (sorted(chain(*tolist()))) is assumed to be [1..max_index] under the representation invariant",
             "a multiprocessing manager DictProxy stores a pickled deep copy of an assigned value (MemoryFullCache(is_memory_shared=True))",
             "multiprocessing.Value cells and the index arrays of _hashes_to_indices are modelled as integer cells / lists of integers; lock decorators are identity",
             "BaseDiscipline.execute: SimpleCache policy, no data processor, grammar validation has no effect, prepare_input_data is a function of the data passed in, "
             "_run (through _execute_monitored) allocates but does not modify existing arrays in place",
         ],
-        "not_covered": ["HDF5Cache on top of its file handler (read_hashes, subtyping of _read_data/_write_data/_has_group against the storage specification); the file handler "
-                        "HDF5FileSingleton.write_data/read_data/_has_group and the sparse write/read pair ARE verified over an abstract h5py/scipy model (contracts/c11_hdf5_cache_file.py, "
-                        "assumptions listed under C11)", "multi-process locking", "Discipline.linearize Jacobian-cache protocol",
+        "not_covered": ["HDF5Cache.__init__ (construction of the singleton file handler, file format version check), _copy_empty_cache, update_file_format, __getstate__/__setstate__ (C20); "
+                        "that the file a NEW session finds satisfies the invariants the previous session left it with is the precondition of _read_hashes (nothing else writes the node)",
+                        "multi-process locking; two HDF5Cache objects on the same node", "Discipline.linearize Jacobian-cache protocol",
                         "BaseDiscipline.execute with MemoryFullCache/HDF5Cache (data converter branches)", "in-place modification of inputs by _run",
-                        "BaseCache.input_names/output_names/names_to_sizes (cached names), get_all_entries, update, __add__, to_dataset, to_ggobi",
+                        "BaseCache.input_names/output_names/names_to_sizes (cached names), update, __add__, __setitem__, to_dataset (pandas), to_ggobi; MemoryFullCache.copy",
                         "arrays returned by a lookup are shared with the cache (SimpleCache, MemoryFullCache not shared): modifying them in place changes the cached entry",
                         "compare_dict_of_arrays itself (assumed contract)"],
     },
@@ -371,7 +429,10 @@ PROPS = {
                       "output keeps the entry the parallel chain computed, and the disciplines' own Jacobian arrays are not modified; plus a bounded stand-in (2 disciplines, 1 summed output, "
                       "1 input) that executes the code as written - comprehension, sum, in-place operators on the very arrays of the disciplines - with the sum written out explicitly. "
                       "MDOChain.copy_jacs (blocks = references into a symbolic heap of arrays): same outputs, same inputs per output, every block a FRESH array with the content of the source "
-                      "block, the argument and every existing array untouched (two loop invariants). The chain rule of MDOChain (reverse accumulation) is not addressed; see not_covered.",
+                      "block, the argument and every existing array untouched (two loop invariants). contracts.c09_numeric: copy_jacs on ONE row {input: block} (the flat-dictionary branch, the call made by "
+                      "reverse_chain_rule): same inputs, every block a fresh array with the content of the source block, copies pairwise distinct, existing arrays untouched. "
+                      "The chain rule of MDOChain (reverse accumulation): a complete step contract of reverse_chain_rule over the abstract matrix ring exists (contracts.c09_numeric, three nested loop "
+                      "invariants, registered only with C09N_WIP=1) but is NOT part of the claim: three preservation obligations of its middle loop are not discharged within the quick budget; see not_covered.",
         "level_note": "Chains: disciplines are opaque, their Jacobians a ghost dictionary of the chain (pyvc/plug_c09.py); ASSUMED: the summary of MDOParallelChain._compute_jacobian "
                       "(prophecy ghosts for what the parallel linearisation leaves in the disciplines and in self.jac), the constructor model of CouplingStructure (its graph is the "
                       "dependency graph specified by the contract verified on __create_graph), shapes of linearised blocks = variable sizes (what Discipline._check_jacobian_shape enforces), "
@@ -397,8 +458,11 @@ PROPS = {
             "for a path of length >= 1: that the requested input x is a differentiated input of the first discipline and the requested output o a differentiated output of the last one (the contracts of _merge_diff_ios give it once a first/last edge is exhibited; exhibiting it needs the unfolding axiom of reach)",
             "exactness/minimality of the selection (only coverage is proved for the traversals and merges)",
             "ValueError of traverse_add_diff_io (allowed, not characterised; the state of the request cache after it is not specified)",
-            "MDOChain.reverse_chain_rule/_compute_jacobian accumulation (numerical chain rule, matrix products), Discipline._init_jacobian (zero blocks for independent pairs)",
-            "copy_jacs on flat dictionaries {output: array} and JacobianOperator blocks (elif branch); pairwise distinctness of the fresh copies among themselves",
+            "MDOChain.reverse_chain_rule/_compute_jacobian accumulation (numerical chain rule, matrix products), Discipline._init_jacobian (zero blocks for independent pairs); work in progress in "
+            "contracts/c09_numeric.py + pyvc/plug_c09n.py (C09N_WIP=1). Two defects of the accumulation were replayed natively and are NOT under contract: (a) a discipline with a variable both produced and read "
+            "and another output sorted before it (polluted in-place += block), (b) overwritten variables - a variable produced by two disciplines, or read before the discipline that (re)produces it - whose stale "
+            "adjoint is chained again (MDOChain of y=2x, y=5x, o=7y: do/dx = 49 instead of 35)",
+            "copy_jacs: JacobianOperator blocks; pairwise distinctness of the fresh copies of a NESTED dictionary among themselves (proved for one row: copy_jacs@row)",
             "MDOParallelChain._compute_jacobian itself (assumed summary: parallel execution machinery, merge loop), MDAChain, nested combinations",
             "additive chain: that the disciplines' blocks are the exact Jacobians of the disciplines (opaque), sparse / JacobianOperator blocks, numpy broadcasting of blocks of unequal shapes",
             "the constructor of CouplingStructure (consistency check, execution sequence) - modelled, not executed",
@@ -420,7 +484,16 @@ PROPS = {
                       "update_from_schema adds the schema's required names - the four defects found here were repaired (0717736, 63aba35, 02afd7d, e774076, see known_findings 'fixed') "
                       "and the clauses are proved without regions; the builder's `required` / `properties` views are verified on the genson representation "
                       "(_root_node._active_strategies[0]._required/_properties: the attached live containers). "
-                      "Pydantic grammars and the Simple/JSON/reference-validator agreement are NOT covered; see level_note.",
+                      "Conversion (JSON <-> simple agreement on what both express): BaseGrammar.to_simple_grammar for JSON and pydantic receivers (SimpleGrammar returns itself) yields a NEW "
+                      "well-formed SimpleGrammar - its Defaults / RequiredNames are bound to IT and checked against ITS elements - with the same names, required names, default VALUES (own "
+                      "dictionary) and the types of JSONGrammar._get_names_to_types (JSON_TO_PYTHON_TYPES of the property's single `type` keyword, else None; exceptions characterised exactly) "
+                      "resp. PydanticGrammar._get_names_to_types; lemma on the REAL conversion tables (JSON->Python->JSON identity, Python->JSON->Python identity up to list/tuple->ndarray, "
+                      "float->complex); the defaults setter also for a Defaults argument; JSONGrammar._copy (caches valid for the copy), update_from_file / to_file (delegation, file system "
+                      "abstract). PydanticGrammar (contracts/c15_pydantic_grammar.py, pydantic abstract: create_model / model_rebuild / model_validate / model_json_schema assumed over "
+                      "(model_fields, ghost built fields)): every mutator (_delitem, _rename_element, _restrict_to, _clear, _update, _update_from_names/_types, __update_from_annotations) "
+                      "changes the fields exactly as specified and re-establishes MODEL VALIDITY (flag down => the model is built from the current fields); __rebuild_model / _validate honour "
+                      "it (verdict of a model built from the CURRENT fields). Known findings (natively confirmed): conversion raises KeyError/TypeError for untyped / multi-typed JSON "
+                      "properties, PydanticGrammar.schema ignores the rebuild flag, PydanticGrammar.copy shares the model class. The reference-validator agreement is NOT covered; see level_note.",
         "level_note": "Trusted: pyvc and its dict/set models; types and data values are opaque values and isinstance(value, type) is an uninterpreted predicate; the "
                       "collections.abc mixin methods the classes inherit (Mapping.__contains__/keys/items/get, MutableMapping.pop/update, MutableSet.__ior__/__iand__/remove/clear, "
                       "copy.copy of a plain instance) are modelled in pyvc/plug_grammars.py from their CPython definitions over the verified primitives (add, discard, __setitem__, "
@@ -442,8 +515,9 @@ PROPS = {
         ],
         "not_covered": [
             "JSONGrammar: JSON-schema acceptance vs a reference validator (fastjsonschema.compile is a function of the schema dictionary, nothing more), the property schema genson infers from a value, "
-            "_copy, set_descriptions, update_from_file/to_file (file I/O), _check_name, __iter__, _get_names_to_types/to_simple_grammar, __repr__; the BaseGrammar template methods are verified for SimpleGrammar only",
-            "PydanticGrammar; agreement Simple <-> JSON grammars (pickling of JSON grammars: see C20, contracts/c20_state.py)",
+            "set_descriptions (in-place edits of genson nodes), _check_name, __iter__, __repr__, the text written by to_file (only where it is written); the BaseGrammar template methods are verified for SimpleGrammar only",
+            "PydanticGrammar: __init__ from a user model, set_descriptions, _check_name, __iter__, __getstate__/__setstate__, defaults/required-name changes (by the property's definition an element is "
+            "required exactly when its model field has no default); validation agreement Simple <-> JSON <-> pydantic on concrete data (pickling of JSON grammars: see C20, contracts/c20_state.py)",
             "renaming onto another existing element: only WFG and the frame are specified (the overwritten element's requiredness/default survive)",
             "the values of to_namespaced/from_namespaced (only their key sets are specified); names_without_namespace, __repr__/_repr_html_, data converter",
             "__iter__ of the three classes and RequiredNames._from_iterable/__str__ are only exercised inlined at their call sites",
@@ -491,7 +565,9 @@ PROPS = {
         "not_covered": ["for JSONGrammar the parts (Defaults, builder, required names) are opaque values read through ghost heaps: "
                         "BaseGrammar.clear / schema / Defaults.update / builder.add_schema are assumed there (verified under C15 on the field-level model); HDF5Cache: BaseFullCache.__init__, _read_hashes "
                         "and the HDF5FileSingleton multiton are assumed", "pickle itself, picklability of the "
-                        "remaining attribute values", "behavioural equivalence of restored disciplines (execute/linearize agree)"],
+                        "remaining attribute values (only locks are tracked: e.g. the mappingproxy inside ScalableDiscipline.scalable_model, lambdas in MDO functions are not)", "behavioural equivalence of restored disciplines (execute/linearize agree)",
+                        "c20_classes: XLSDiscipline.__setstate__ (assumed), identity/aliasing of re-created values other than locks and shared cells (SobieskiProblem(dtype), {} are values), "
+                        "classes outside the repository's class statements (user subclasses: e.g. a subclass of PydanticGrammar is not picklable, the state key is built from __class__.__name__)"],
     },
     "C10": {
         "level_text": "Proof, index-wise and for all dimensions m, n and all points, with the operands as uninterpreted maps f, g: R^n -> R^m and uninterpreted "
@@ -558,7 +634,17 @@ PROPS["C11"] = {
                   "point decodes (fhas/fval) to exactly its outputs (PointRoundTripLemmas), reader(writer(db)) has the same points in the same order and "
                   "'incremental append == single final export' at the index level (IndexRoundTripLemmas). NOT proved: the content clauses of the reader (names = fhas, "
                   "values = fval; designed, switched off: READER_CONTENT_CLAUSES), the append-case point lemma and hence the end-to-end VALUE round trip - covered only by "
-                  "the bounded run-time stand-in below.",
+                  "the bounded run-time stand-in below. "
+                  "DESIGN-SPACE TEXT FILES (contracts/c11_design_space_files.py): DesignSpace.from_csv (header read from the file) is proved over an abstract text table "
+                  "(what numpy.genfromtxt returns as a str and a float table of the same shape; assumed contracts T1-T4 of pyvc/plug_dsfiles.py): loop invariants "
+                  "'the scanned rows of the name column form consecutive blocks, one per unique name' and 'k = start + the rows of the variables already read; "
+                  "variable j was added with the arguments read from EXACTLY its own rows'; on a normal return the header holds the minimal fields, the names form "
+                  "consecutive blocks, the design space has one variable per block in block order whose index range is the block's row range (size = block length), and "
+                  "add_variable received for it the type of its first row, the lower/upper bounds of exactly its rows and the value column of exactly its rows - None iff "
+                  "one of ITS OWN rows says 'None' or there is no value column (ghost call record c11_added; add_variable re-verified with that record: variant @c11); "
+                  "a missing minimal field or a non-consecutive repeated name ends in ValueError (no normal return); induction lemma IntervalCount for list.count (CsvLemmas). "
+                  "NOT proved: to_csv / get_pretty_table (PrettyTable layer), the text round-trip lemma, to_hdf / from_hdf / to_file / from_file of DesignSpace, "
+                  "OptimizationProblem.to_hdf / from_hdf - bounded stand-in only.",
     "level_note": "Trusted: pyvc, z3, the abstract h5py model pyvc/plug_hdf.py (assumed contracts A1-A15, each validated against the real h5py by "
                   "tools/validate_h5py_model.py), sorted() as a deterministic duplicate-free listing, float64 = reals, ASCII output names. "
                   "The property is claimed at the level of the writer primitives only; DesignSpace / OptimizationProblem / HDF5Cache files are not under contract.",
@@ -587,6 +673,13 @@ PROPS["C11"] = {
         "round-trip lemmas SparseRoundTrip / CacheFileRoundTrip: read(write(v)) is an equal array, sparse arrays equal AS MATRICES",
         "output values: isinstance(value, (ndarray, list)) is the uninterpreted predicate is_arr(value); HDFDatabase.__to_real is the identity on real data; "
         "sorted(names) is a deterministic duplicate-free listing of the set of names (alphabetical order not modelled)",
+        "design-space text files (pyvc/plug_dsfiles.py, validated natively by tools/validate_csv_model.py): T1 genfromtxt(path, dtype='float') / (.., dtype='str') are two "
+        "tables of the same shape over the same cells, not two-dimensional for fewer than two lines or columns (2-index subscript: IndexError); T2 numpy basic indexing "
+        "table[r, :] / table[a:b, c] / table[r, c] with clamped slices and IndexError for an integer out of range, .tolist(); T3 `'None' in column part`; T4 list.count = "
+        "recursive specification function csv_count; float cells are opaque contents (no parsing / 16-digit rounding modelled); DesignSpace() is the empty design space "
+        "(model of __init__); pydantic Variable model of C02; _check_current_names (called by check()) assumed to only inspect; precondition of from_csv: the header "
+        "fields are pairwise distinct (files written by to_csv have the header TABLE_NAMES; applicability of the dict-comprehension model of col_map); only the variant "
+        "with the header read from the file (header=()) is verified",
     ],
     "bounded_standins": [
         "contracts/rt_c11.py (run: PYTHONPATH=/repo/src:/verif /venv/bin/python -m contracts.rt_c11 3): all sequences of length <= 3 (root node; <= 3 on a nested node) "
@@ -594,10 +687,15 @@ PROPS["C11"] = {
         "with at least one export and at most two distinct points, on REAL h5py files in a tempfile directory: after every export Database.from_hdf(file) equals the "
         "in-memory database (points in order, names, values), and at the end the incrementally appended file reloads to the same content as a single non-append "
         "export. 3208 scenarios, 0 failures on the pinned tree (48 s). This stands in for the unproved to_file / update_from_file / round-trip clauses.",
+        "contracts/rt_c11.py bounded_check_ds (same command, second line of output): every ordered selection of 1..3 distinct variables out of 6 (float/integer, sizes 1-3, "
+        "infinite bounds, missing current values, multi-character names) written and read back on REAL files with to_csv/from_csv, to_file/from_file (.csv and .h5), "
+        "to_hdf/from_hdf (root and nested node): same names in the same order, sizes, types, bounds, current values (None stays None), reloaded == original. "
+        "780 scenarios, 0 failures on the pinned tree (5 s). Stands in for the unproved to_csv / HDF / to_file clauses of the design-space files.",
     ],
     "not_covered": ["content clauses of HDFDatabase.update_from_file (names/values of each reloaded point) and the file-level per-point content invariant of to_file (index level proved; values: bounded stand-in only)",
                     "Database.input_space / DesignSpace.to_hdf inside to_file (assumed to leave x, k, v untouched)",
-                    "DesignSpace.to_hdf/from_hdf/to_csv/from_csv, OptimizationProblem.to_hdf/from_hdf", "HDF5Cache itself (hash index read_hashes, behavioural subtyping of _read_data/_write_data against BaseFullCache's storage specification, update_file_format); only its file handler HDF5FileSingleton is under contract", "HDF5 library / file-system behaviour, complex values (imaginary part dropped by __to_real), "
+                    "DesignSpace.to_csv / get_pretty_table (PrettyTable text layer) and hence the text round-trip lemma, from_csv with an explicit header argument, files with duplicate header fields, "
+                    "DesignSpace.to_hdf/from_hdf/to_file/from_file (bounded stand-in only), OptimizationProblem.to_hdf/from_hdf", "HDF5Cache itself (hash index read_hashes, behavioural subtyping of _read_data/_write_data against BaseFullCache's storage specification, update_file_format); only its file handler HDF5FileSingleton is under contract", "HDF5 library / file-system behaviour, complex values (imaginary part dropped by __to_real), "
                     "non-ASCII output names (numpy.array(.., dtype=bytes_) raises UnicodeEncodeError: export fails)", "hash collisions in the pending buffer"],
 }
 
@@ -674,7 +772,15 @@ PROPS["C14"] = {
                   "matrix does not have one column per component and otherwise returns as many rows, row r = transform_vect(given row r); (numerical level, "
                   "cached normalisation data typed precisely) unnormalize_vect / round_vect on a BATCH of unit samples compute, row by row and component by "
                   "component (hence in the design space's component order), u (ub - lb) + lb on normalised components, u elsewhere, then numpy.round on the integer "
-                  "components (in place, integer dtype recast included); lemmas: a unit sample lands inside [lb, ub], end points, equal bounds, monotonicity; with "
+                  "components (in place, integer dtype recast included); (round 2) the integer arithmetic of the stratified OpenTURNS designs: _compute_n_levels of "
+                  "OTAxialDOE / OTFactorialDOE / OTCompositeDOE returns the LARGEST number of levels L >= 1 whose documented point count (1 + 2dL, 1 + 2^d L, "
+                  "1 + (2d + 2^d) L) does not exceed n_samples and raises ValueError iff even one level does not fit; BaseOTStratifiedDOE.generate_samples (n_samples > 0) "
+                  "returns that documented count <= n_samples of points of [0,1]^d; the three wrapper libraries (OpenTURNS, SciPyDOE, PyDOELibrary) hand to the "
+                  "third-party sampler exactly Seeder.get_seed(given seed) (a given seed unchanged, 0 included; None -> incremented default seed), the dimension of the "
+                  "design space, n_samples and the (filtered) settings unchanged, call it exactly once and return what it returned (pyDOE non-LHS designs: mapped "
+                  "entry-wise from [-1,1] to [0,1]); OATDOE returns d + 1 points following the coded one-factor-at-a-time step rule, inside [0,1]^d for a step <= 1/2 "
+                  "(KNOWN FINDING beyond); compute_doe on a dimension samples the new space of one float variable x of size d; lemmas: determinism by congruence "
+                  "(same algorithm, settings, seed => same samples; a given seed is independent of the Seeder state), documented-count arithmetic,  a unit sample lands inside [lb, ub], end points, equal bounds, monotonicity; with "
                   "integer bounds the rounded value is an integer inside the bounds; induction lemmas for the hstack offsets and the linspace bounds.",
     "level_note": "Trusted: pyvc (three small additive engine features: typed **kwargs, `f(**d)` into a `**kw` callee, per-contract callee contract variants), the numpy "
                   "model npmodel.py + pyvc/plug_c14.py (hstack of a list, where(mask), set(int vector), linspace, newaxis, a[..., mask], apply_along_axis(transform_vect), "
@@ -684,7 +790,11 @@ PROPS["C14"] = {
                   "its per-component meaning is what the numerical-level contracts prove under C02's validity of the cached data), pydantic settings validation / "
                   "filtering, the stop_if_nan setter and _init_iter_observer. OBSERVATION (not a clause of the property, reported): when "
                   "__check_unnormalization_capability raises (a component unbounded on one side), compute_doe and _pre_run leave "
-                  "design_space.enable_integer_variables_normalization = True although it was False on entry (and the policies of the integer variables changed).",
+                  "design_space.enable_integer_variables_normalization = True although it was False on entry (and the policies of the integer variables changed). "
+                  "KNOWN FINDING (known_findings.json, region step-larger-than-one-half): OATDOE / MorrisDOE leave the unit hypercube - hence the bounds - for a relative "
+                  "step > 1/2 (settings only require step > 0). Round-2 engine additions: chained comparisons inside comprehension elements; plug_c14: int(float), 2 ** d as "
+                  "pow2, third-party sampler calls recorded in ghost variables, list.remove, packaging version predicates, array(list of vectors), DesignSpace() as the "
+                  "ASSUMED empty design space.",
     "design_ref": "DESIGN.md §4 C14",
     "modules": ["contracts.c14_doe"],
     "assumptions": [
@@ -701,10 +811,23 @@ PROPS["C14"] = {
         "numpy.hstack of a list of vectors: blocks at the prefix sums of the lengths (monotone offsets and block-of-position proved by induction in HstackLemmas); hstack of n x 1 columns",
         "CustomDOE: samples given as a matrix (no file, no mapping / sequence of mappings); apply_along_axis(transform_vect, 1, A) maps every row, in order, by the deterministic "
         "length-preserving function c14_transform_vect of the design-space state",
+        "OpenTURNS Axial / Factorial / Composite(centre, levels).generate() return 1 + weight(d) * len(levels) points (weight 2d / 2^d / 2d + 2^d; checked natively for "
+        "d, L in 1..3), with coordinates in [0,1] for centre 1/2 and levels in ]0, 1/2]; 2 ** d is the uninterpreted pow2(d) >= 1; int(x / y) is exact truncation (float64 = "
+        "reals: natively int((n - 1) / 2 / d) differs from (n - 1) // (2 d) for n around 1e17)",
+        "third-party samplers are deterministic uninterpreted functions c14_third_party_samples(algorithm, dimension, n_samples, seed, options); "
+        "numpy.random.RandomState(seed) = c14_random_state(seed); RandomGenerator.SetSeed sets the seed used by the next OpenTURNS design; the name tables of the wrapper "
+        "libraries have the keys of ALGORITHM_INFOS; validated settings contain every field of their model (seed / random_state: int or None); packaging version "
+        "comparisons are an uninterpreted predicate of the version string",
+        "OATDOE: step > 0 (PositiveFloat) and an initial point in the unit hypercube; _compute_n_levels: n_samples > 0 (call site) and dimension >= 1",
+        "DesignSpace() is the empty design space satisfying the C02 invariant (constructor not under contract); the abstract _compute_n_levels is used through the "
+        "contract proved for its three implementations (weight written c14_stratified_weight)",
         "variable types are 'float' or 'integer' (pydantic-validated DataType); assigning a dtype that differs only by metadata leaves the elements unchanged",
     ],
     "not_covered": ["the third-party samplers themselves (sample count, range, seed handling of SciPy / OpenTURNS / pyDOE wrappers and their gemseo adapters)",
-                    "compute_doe with a dimension (int) instead of a design space (singledispatch __get_design_space building the unit space)",
+                    "MorrisDOE._generate_unit_samples (factory / nested compute_doe calls; only its count arithmetic r (d + 1) <= n_samples is a lemma over the documented formula; it "
+                    "inherits the OAT step finding)", "full-factorial level computation n_samples ** (1 / d) (BaseFullFactorialDOE, real powers) and the OpenTURNS / pyDOE full "
+                    "factorial designs", "BaseOTStratifiedDOE.generate_samples with explicit centers / levels (n_samples = 0); the other OpenTURNS algorithm classes "
+                    "(LHS, Sobol, Monte Carlo...: thin calls into OpenTURNS)",
                     "ParameterSpace (random variables: untransform through the inverse CDFs)", "_run / parallel evaluation of the samples (C13) and storage order in the database",
                     "CustomDOE.read_file, samples given as mappings", "DOEScenario / factory / settings models",
                     "the link between the design space's variables / policies and its cached normalisation arrays (__update_normalization_vars, C02 gap), hence no "
